@@ -7,17 +7,23 @@ META = {
     "technique": "Coq proofs over the mirror-kernel model with an explicit store-write log (log = store delta for every operation, "
                  "crash states = write prefixes, start-up re-verifies every stored vote for ALL store contents) + differential "
                  "correspondence with the real mirror under injected crashes (write budgets) and restarts + Coq monitors",
-    "level": "P/partial. Proved: each operation's store effect is exactly the replay of its logged writes (so the crash model "
-             "explores precisely the states a stop between two store writes can leave), a crash after the last write is a clean "
-             "restart, and for every store content a start-up that succeeds holds only votes that verify for the round they are "
-             "filed under. Checked on every run against the real mirror with a crash after every k-th store write, restart, "
-             "redelivery: start-up succeeds, position and chain never regress, persisted votes/proposals of the resumed rounds "
-             "are present, redelivery converges. Partial: 'start-up never fails' and convergence are monitored, not proved; the "
-             "full convergence statement is refuted (known finding: a restarted node can be AHEAD of the uninterrupted run "
-             "because views created by a round change ignore votes stored earlier for that round). State-machine half: the real "
-             "tmstate.StateMachine is restarted on the same stores inside generated and scripted histories; a Coq monitor checks that "
-             "it resumes in the round the stores prescribe ((h+1, 0) after a stored finalization of h) and never emits a vote twice "
-             "across the restart (the emission theorem is C02's); engine start-up (init-chain) is outside the models.",
+    "level": "P/partial. Proved (Properties/C10.v, C10Resume.v): each operation's store effect is exactly the replay of its logged writes (so "
+             "the crash model explores precisely the states a stop between two store writes can leave); a crash after the last write is "
+             "a clean restart; START-UP NEVER FAILS: from the stores left by ANY prefix of the writes of ANY admissible operation in any "
+             "state reached by operations, crashes and restarts, the model's NewKernel comes up (C10_startup_never_fails_any_cut_partial), "
+             "and on ANY stores satisfying the store invariant it comes up in a state satisfying all kernel invariants "
+             "(C10_restart_total_on_store_invariant); NO REGRESSION: committed headers are kept, heights never decrease, rounds only "
+             "move by increments, and the restarted node is at most one height ahead of the uninterrupted run; the kernel invariants "
+             "(and with them the theorems of C01/C04/C05/C07) hold again after every crash/restart at a clean cut. Guards: accepted "
+             "headers announce a next validator set with positive power (and, in the model only, at least one key); the one crash point "
+             "between the committed-header write and the position write is covered for start-up but histories are not continued from "
+             "it. Refuted: the restarted node can be AHEAD of the uninterrupted run in rounds (known finding). A first version of the "
+             "start-up theorem was REFUTED by a witness (an entry without signatures persisted by the future-vote path) that reproduced on "
+             "the real mirror and was repaired there. Monitored on every run against the real mirror with a stop after every k-th "
+             "store write: start-up succeeds, nothing regresses, persisted votes are reloaded, redelivery converges. State-machine half: "
+             "the real tmstate.StateMachine is restarted on the same stores inside generated and scripted histories; a Coq monitor checks "
+             "that it resumes in the round the stores prescribe and never emits a vote twice (the emission theorem is C02's); engine "
+             "start-up (init-chain) is outside the models.",
     "note": "Trusted: Coq kernel; crash = the stores keep a prefix of the operation's write calls (each store method atomic); "
             "in-memory stores only; correspondence harness with write-budget store wrappers. No axioms.",
     "design_ref": "DESIGN.md 4 (C10)",
